@@ -29,6 +29,7 @@ EXPLANATION = (
     "change the state, N2 stray/unclosed tags inside a removed element neither end it early nor prolong it, N3 a void "
     "removable element (embed) opens no region, N4 no data-bearing callback writes while suppressed and comments never "
     "write, N5 MHTML and MSG bodies reach text only through these parsers without regex pre-processing of the markup. (EOF) close() is never called on the html.parser subclasses (at end of input it hands unterminated comments / declarations / tags to handle_data as text); the buffer left after feed() is delivered only under a test that it contains no '<'."
+    ' (TOK) the parser classes override callbacks only: no tokenizer attribute or method of html.parser (CDATA_CONTENT_ELEMENTS, set_cdata_mode, parse_*) is redefined, so the model the callbacks are explored against is the tokenizer as shipped. (GUARD) in every callback that writes parser state the early return under the suppression test precedes the first write.'
 )
 NOT_DECIDED = ["text of mis-nested *removable* elements of different names (inherently ambiguous)",
                "html.parser's own tokenisation (CDATA content mode of script/style, attribute parsing)"]
